@@ -49,12 +49,13 @@ class Builder:
     """
 
     def __init__(self, d, prefix, lb=1, lf=1, feat='unary', base_alpha=CATCHAR, feat_alpha=FEATCHAR,
-                 slashes='/\\', tern_alpha=TERNCHAR, lk=1, full=None, plain_alpha=PLAIN, keys=None, defaults=('d1', 'd2', 'd3')):
+                 slashes='/\\', tern_alpha=TERNCHAR, lk=1, full=None, plain_alpha=PLAIN, keys=None, defaults=('d1', 'd2', 'd3'), fmodes=None, smodes=None):
         self.d, self.p, self.lb, self.lf, self.feat = d, prefix, lb, lf, feat
         self.ba, self.fa, self.ta, self.slashes, self.lk = base_alpha, feat_alpha, tern_alpha, slashes, lk
         self.n = 0
         self.full, self.pa, self.leaf = full, plain_alpha, -1
         self.keys, self.defaults = keys, defaults
+        self.fmodes, self.smodes, self.node = fmodes, smodes, -1
 
     def _name(self, kind):
         self.n += 1
@@ -69,6 +70,8 @@ class Builder:
         f = self.feat
         fa = self.fa if self._isfull() else self.pa
         ta = self.ta if self._isfull() else self.pa
+        if self.fmodes is not None and f != 'ternary':
+            f = {'m': 'mixed', 'u': 'unary', 'n': 'none'}[self.fmodes[self.leaf]]
         if f == 'mixed':
             f = 'unary' if d.boolean(self._name('hasf')) else 'none'
         if f == 'none':
@@ -91,9 +94,12 @@ class Builder:
         raise ValueError(f)
 
     def slash(self):
-        if len(self.slashes) == 1:
-            return self.slashes
-        return self.d.char_in(self._name('s'), self.slashes)
+        self.node += 1
+        allowed = self.slashes if self.smodes is None else self.smodes[self.node]
+        if len(allowed) == 1:
+            self._name('s')
+            return allowed
+        return self.d.char_in(self._name('s'), allowed)
 
     def build(self, shape):
         C = cats()
